@@ -98,10 +98,12 @@ package boltz
 // re-read after the write; for update the initial state read before it) is registered last on the context's transaction,
 // preceded by exactly one for the parent store if there is one
 //@ func (*BaseStore).Create
-//@   props C08 C07
+//@   props C08 C07 C03
 //@   errflow
 //@   nosafety
-//@   modifies *, ocCnt, ocFn, ocRecv
+//@   modifies *, ocCnt, ocFn, ocRecv, cxN, cxWho, cxPhase, cxCtx, cxPersist
+//@   lensures[persist-then-after-update] indexingContext != nil && !holderFailed[indexingContext.ErrHolder] ==> cxPersist >= old(cxN) && cxN >= cxPersist + len(store.Indexer.constraints) && cxSegment(cxN, store.Indexer.constraints, len(store.Indexer.constraints), 2, ref(indexingContext))
+//@   lensures[the-row's-context] indexingContext != nil ==> indexingContext.IsCreate && str(indexingContext.RowId) == entId(ref(entity)) && indexingContext.Ctx == ctx && indexingContext.Indexer == store.Indexer
 //@   lensures[holder] bucket != nil && bucket.Err != nil ==> result != nil
 //@   lensures[one-event-plus-one-for-the-parent] result == nil && changeFlow != nil ==> ocCnt[ctxTx[ctx]] == old(ocCnt[ctxTx[ctx]]) + ite(old(store.parent) != nil, 2, 1)
 //@   lensures[own-event-last] result == nil ==> sel(ocRecv[ctxTx[ctx]], ocCnt[ctxTx[ctx]] - 1) == ref(changeFlow)
@@ -110,44 +112,49 @@ package boltz
 //@ func (ChildStoreStrategy).HandleUpdate
 //@   props C07
 //@   impl all
-//@   modifies *, ocCnt, ocFn, ocRecv
+//@   modifies *, ocCnt, ocFn, ocRecv, cxN, cxWho, cxPhase, cxCtx, cxPersist
 //@   ensures[unhandled-has-no-error] !result0 ==> result1 == nil
 //@   ensures[unhandled-registers-nothing] !result0 ==> ocSame()
+//@   ensures[unhandled-notifies-no-constraint] !result0 ==> cxSame()
 //@ func (*BaseStore).Update
-//@   props C08 C07
+//@   props C08 C07 C03
 //@   errflow
 //@   nosafety
-//@   modifies *, ocCnt, ocFn, ocRecv
+//@   modifies *, ocCnt, ocFn, ocRecv, cxN, cxWho, cxPhase, cxCtx, cxPersist
+//@   lensures[before-update-precedes-the-persist] indexingContext != nil && !holderFailed[indexingContext.ErrHolder] ==> cxPersist >= old(cxN) + len(store.Indexer.constraints) && cxSegment(cxPersist, store.Indexer.constraints, len(store.Indexer.constraints), 1, ref(indexingContext))
+//@   lensures[after-update-follows-the-persist] indexingContext != nil && !holderFailed[indexingContext.ErrHolder] ==> cxN >= cxPersist + len(store.Indexer.constraints) && cxSegment(cxN, store.Indexer.constraints, len(store.Indexer.constraints), 2, ref(indexingContext))
+//@   lensures[the-row's-context] indexingContext != nil ==> !indexingContext.IsCreate && str(indexingContext.RowId) == entId(ref(entity)) && indexingContext.Ctx == ctx && indexingContext.Indexer == store.Indexer
 //@   lensures[holder] bucket != nil && bucket.Err != nil ==> result != nil
 //@   lensures[one-event-plus-one-for-the-parent] result == nil && changeFlow != nil ==> ocCnt[ctxTx[ctx]] == old(ocCnt[ctxTx[ctx]]) + ite(old(store.parent) != nil, 2, 1)
 //@   lensures[own-event-last] result == nil ==> sel(ocRecv[ctxTx[ctx]], ocCnt[ctxTx[ctx]] - 1) == ref(changeFlow)
 //@   lensures[own-event-state] result == nil ==> changeFlow.ChangeType == EntityUpdated && changeFlow.Ctx == ctx && changeFlow.InitialState == baseEntity
 //@   lensures[other-transactions-untouched] result == nil && changeFlow != nil ==> ocOthersSame(ctxTx[ctx])
-//@   invariant 1: ocSame()
+//@   invariant 1: ocSame() && cxSame()
 
 // Delete: one change flow per child store that holds the entity plus one for the store itself, each fired exactly once,
 // in order, as the last registrations; the store's own flow is marked as parent event iff a child flow exists
 //@ func (storeInternal).processDeleteConstraints
-//@   modifies *, ocCnt, ocFn, ocRecv
+//@   modifies *, ocCnt, ocFn, ocRecv, cxN, cxWho, cxPhase, cxCtx, cxPersist
 //@   ensures[a-delete-flow] result0 != nil ==> fresh(result0) && istype(result0, *EntityChangeState) && as(result0, *EntityChangeState).Ctx == ctx && as(result0, *EntityChangeState).ChangeType == EntityDeleted && as(result0, *EntityChangeState).EntityId == id
 //@ func (*BaseStore).processDeleteConstraints
-//@   props C07 C08
+//@   props C07 C08 C03
 //@   errflow
 //@   nosafety
-//@   modifies *, ocCnt, ocFn, ocRecv
+//@   modifies *, ocCnt, ocFn, ocRecv, cxN, cxWho, cxPhase, cxCtx, cxPersist
+//@   lensures[before-delete-for-every-constraint] indexingContext != nil && !holderFailed[indexingContext.ErrHolder] ==> cxN >= old(cxN) + len(store.Indexer.constraints) && cxSegment(cxN, store.Indexer.constraints, len(store.Indexer.constraints), 3, ref(indexingContext)) && str(indexingContext.RowId) == id && indexingContext.Ctx == ctx
 //@   lensures[holder] errHolder.Err != nil ==> result1 != nil
 //@   lensures[a-delete-flow] result0 != nil ==> result0 == changeFlow && changeFlow.ChangeType == EntityDeleted && changeFlow.Ctx == ctx && changeFlow.EntityId == id
 //@ func (Store).DeleteById
-//@   modifies *, ocCnt, ocFn, ocRecv
+//@   modifies *, ocCnt, ocFn, ocRecv, cxN, cxWho, cxPhase, cxCtx, cxPersist
 //@ func (ChildStoreStrategy).HandleDelete
-//@   modifies *, ocCnt, ocFn, ocRecv
+//@   modifies *, ocCnt, ocFn, ocRecv, cxN, cxWho, cxPhase, cxCtx, cxPersist
 //@ func (ChildStoreStrategy).GetStore
 //@   pure
 //@ func (*BaseStore).DeleteById
 //@   props C08 C07
 //@   errflow
 //@   nosafety
-//@   modifies *, ocCnt, ocFn, ocRecv, ecsParent
+//@   modifies *, ocCnt, ocFn, ocRecv, ecsParent, cxN, cxWho, cxPhase, cxCtx, cxPersist
 //@   lensures[every-flow-fired-once-in-order] result == nil && store.parent == nil && bucket != nil && changeFlows[0] != nil ==> forall(j, 0 <= j && j < len(changeFlows) ==> sel(ocRecv[ctxTx[ctx]], ocCnt[ctxTx[ctx]] - len(changeFlows) + j) == ref(changeFlows[j]))
 //@   invariant 1: len(changeFlows) >= 1 && (hasChildren == (len(changeFlows) > 1)) && forall(j, 1 <= j && j < len(changeFlows) ==> changeFlows[j] != nil && ecsCtx[changeFlows[j]] == ref(ctx))
 //@   invariant 2: len(changeFlows) >= 1 && (changeFlows[0] != nil ==> len(changeFlows) >= 1 && forall(j, 0 <= j && j < len(changeFlows) ==> changeFlows[j] != nil && ecsCtx[changeFlows[j]] == ref(ctx)) && forall(j, 0 <= j && j <= rangeindex ==> sel(ocRecv[ctxTx[ctx]], ocCnt[ctxTx[ctx]] - (rangeindex + 1) + j) == ref(changeFlows[j])))
@@ -155,7 +162,7 @@ package boltz
 //@   props C07
 //@   errflow
 //@   nosafety
-//@   modifies *, ocCnt, ocFn, ocRecv
+//@   modifies *, ocCnt, ocFn, ocRecv, cxN, cxWho, cxPhase, cxCtx, cxPersist
 
 // ---- delivery: what runs after the commit ----
 // ppN/ppWho/ppState: the log of ProcessPostCommit calls (which constraint, with which state)
